@@ -531,6 +531,7 @@ func Run(c *engine.Ctx) {
 	}
 	c.Bound("sequential", fmt.Sprintf("%d operation instances over %d operand document variants x %d second-operand variants", total, len(names), len(names)))
 	vocabulary(c, docs)
+	sparsePersons(c, docs)
 	schedules(c)
 	fineGrained(c)
 }
@@ -605,4 +606,75 @@ func opFamily(name string) string {
 		name = name[:j]
 	}
 	return name
+}
+
+// sparsePersons: partially populated nested values. The first supplier and the first originator of a package node
+// and of a file node are a person with every subset of the scalar person fields (enumerated from the schema) set, who
+// has one contact with every subset of them set: 2^n x 2^n shapes. The whole operation table runs on each; an
+// operation that completes a sparse value from its surroundings (a parent from its contact, a contact from its
+// parent) writes into the operand.
+func sparsePersons(c *engine.Ctx, docs map[string]func() *sbom.Document) {
+	c.Group("sparse-persons")
+	var fds []protoreflect.FieldDescriptor
+	for _, fd := range gen.Fields(&sbom.Person{}) {
+		if !fd.IsList() && !fd.IsMap() && fd.Kind() != protoreflect.MessageKind {
+			fds = append(fds, fd)
+		}
+	}
+	n := 1 << len(fds)
+	c.Bound("sparse-persons", fmt.Sprintf("%d x %d shapes: every subset of the %d scalar person fields on a supplier / originator x every subset on its contact, on a package node and a file node, x the whole operation table", n, n, len(fds)))
+	mk := func(mask int, tag string) *sbom.Person {
+		p := &sbom.Person{}
+		for i, fd := range fds {
+			if mask&(1<<i) != 0 {
+				gen.SetField(p.ProtoReflect(), fd, 1, tag)
+			}
+		}
+		return p
+	}
+	build := func(pm, cm int) *sbom.Document {
+		d := docs["sparse"]()
+		for i, nd := range d.NodeList.Nodes {
+			if i == 1 {
+				nd.Type = sbom.Node_FILE
+			}
+			sup, org := mk(pm, "S"), mk(pm, "O")
+			sup.Contacts = []*sbom.Person{mk(cm, "SC")}
+			org.Contacts = []*sbom.Person{mk(cm, "OC")}
+			nd.Suppliers = []*sbom.Person{sup, {Name: "second"}}
+			nd.Originators = []*sbom.Person{org}
+		}
+		return d
+	}
+	for pm := 0; pm < n; pm++ {
+		for cm := 0; cm < n; cm++ {
+			pm, cm := pm, cm
+			c.Case(func() any {
+				return map[string]any{"group": "sparse-persons", "person-fields": pm, "contact-fields": cm}
+			}, func(t *engine.T) *engine.Violation {
+				d, aux := build(pm, cm), docs["full-tree"]()
+				before, beforeAux := gen.Snap(d), gen.Snap(aux)
+				ops := Ops(d)
+				for _, o := range ops {
+					o.Run(d, aux)
+				}
+				t.Transitions(len(ops))
+				t.Validated(2)
+				if gen.Snap(d) != before || gen.Snap(aux) != beforeAux {
+					for _, o := range Ops(build(pm, cm)) {
+						d1, a1 := build(pm, cm), docs["full-tree"]()
+						b1 := gen.Snap(d1)
+						o.Run(d1, a1)
+						if a := gen.Snap(d1); a != b1 {
+							return engine.Violate("operand-mutated", opFamily(o.Name), "%s changed its operand (person fields %b, contact fields %b): %s", o.Name, pm, cm, gen.SnapDiff(b1, a))
+						}
+					}
+					return engine.Violate("operand-mutated", "sequence", "the operation table run in sequence changed an operand (person fields %b, contact fields %b): %s", pm, cm, gen.SnapDiff(before, gen.Snap(d)))
+				}
+				t.State(fmt.Sprintf("sparse-persons|%d|%d", pm, cm))
+				t.Outcome("unchanged:sparse-persons")
+				return nil
+			})
+		}
+	}
 }
